@@ -95,6 +95,11 @@ func drawListing(t *rapid.T) sitemodel.Listing {
 		triggers = []string{"INT $0x80", "SYSENTER", "INT $0x80", "SYSENTER", "INT $0x80", "SYSENTER", "SYSCALL"}
 	}
 	nf := rapid.IntRange(1, 8).Draw(t, "nfuncs")
+	if rapid.IntRange(0, 5).Draw(t, "manyFuncs") == 0 {
+		// a listing of several read-buffer lengths (the reader works in 4096-byte blocks: whatever is remembered from one
+		// block must still be right after the next ones were read)
+		nf = rapid.IntRange(20, 60).Draw(t, "nfuncsMany")
+	}
 	for f := 0; f < nf; f++ {
 		fn := sitemodel.Func{}
 		switch rapid.IntRange(0, 7).Draw(t, "fnName") {
@@ -187,9 +192,18 @@ func drawC16(t *rapid.T) c16Case {
 	return c
 }
 
+// extract calls ExtractSyscalls. A panic is returned in pan; so is the other thing that must never happen whatever the
+// input: a result handed back together with an error ("returns an error, not a partial result").
 func extract(archName, path string) (res []disasm.Syscall, err error, pan any) {
-	defer func() { pan = recover() }()
+	defer func() {
+		if x := recover(); x != nil {
+			pan = fmt.Sprintf("panic: %v", x)
+		}
+	}()
 	res, err = disasm.ExtractSyscalls(spec.ArchInfo(archName), path)
+	if err != nil && len(res) > 0 {
+		pan = fmt.Sprintf("an error (%v) was returned together with a partial result of %d syscalls (%v ...)", err, len(res), keys(res[:1]))
+	}
 	return
 }
 
@@ -315,7 +329,7 @@ func checkC16(raw json.RawMessage) (ev.Result, error) {
 		p, _ := writeTemp(dir, "all.txt", text)
 		all, err, pan := extract(archName, p)
 		if pan != nil {
-			return res, fmt.Errorf("extraction panicked on a well-formed listing: %v", pan)
+			return res, fmt.Errorf("extraction misbehaved on a well-formed listing: %v", pan)
 		}
 		if err != nil {
 			return res, fmt.Errorf("extraction failed on a well-formed listing: %v", err)
@@ -359,7 +373,7 @@ func checkC16(raw json.RawMessage) (ev.Result, error) {
 		p, _ := writeTemp(dir, "t.txt", c.Text)
 		r, _, pan := extract(archName, p)
 		if pan != nil {
-			return res, fmt.Errorf("extraction panicked on input %q: %v", clip(c.Text, 300), pan)
+			return res, fmt.Errorf("extraction misbehaved on input %q: %v", clip(c.Text, 300), pan)
 		}
 		if err := wellFormed(archName, r); err != nil {
 			return res, err
@@ -387,7 +401,7 @@ func checkC16(raw json.RawMessage) (ev.Result, error) {
 		p, _ := writeTemp(dir, "long.txt", text)
 		r, err, pan := extract(archName, p)
 		if pan != nil {
-			return res, fmt.Errorf("extraction panicked on a listing with a %d-byte line: %v", c.LongLen, pan)
+			return res, fmt.Errorf("extraction misbehaved on a listing with a %d-byte line: %v", c.LongLen, pan)
 		}
 		pos := "middle"
 		if at == 0 {
@@ -425,7 +439,7 @@ func checkC16(raw json.RawMessage) (ev.Result, error) {
 		p, _ := writeTemp(dir, "cut.txt", text[:cut])
 		r, err, pan := extract(archName, p)
 		if pan != nil {
-			return res, fmt.Errorf("extraction panicked on a listing truncated at byte %d: %v\n%q", cut, pan, clip(text[max(0, cut-200):cut], 300))
+			return res, fmt.Errorf("extraction misbehaved on a listing truncated at byte %d: %v\n%q", cut, pan, clip(text[max(0, cut-200):cut], 300))
 		}
 		if err == nil {
 			if err := wellFormed(archName, r); err != nil {
@@ -447,7 +461,7 @@ func checkC16(raw json.RawMessage) (ev.Result, error) {
 		}
 		r, err, pan := extract(archName, path)
 		if pan != nil {
-			return res, fmt.Errorf("extraction panicked on unreadable path %s: %v", c.Path, pan)
+			return res, fmt.Errorf("extraction misbehaved on unreadable path %s: %v", c.Path, pan)
 		}
 		if err == nil {
 			return res, fmt.Errorf("the text at %s cannot be read, but extraction returned %d results and no error", c.Path, len(r))
